@@ -290,6 +290,9 @@ func account(c Case) {
 		for _, l := range tgen.TreeLabels(tree) {
 			vl[l] = true
 		}
+		if tgen.HugeString(tree) {
+			vl["string-or-binary>64KiB"] = true
+		}
 		if c.T.Union {
 			if c.Vals[i].Sel > 0 && len(tree.Fields) == 1 {
 				vl["union.member-set"] = true
@@ -325,7 +328,7 @@ func account(c Case) {
 
 func TestRoundTrip(t *testing.T) {
 	o := &tgen.Opts{NoWideIDs: evid.KnownActive(classWideIDs)}
-	n := 10000
+	n := 8000
 	if evid.Thorough() {
 		o.MaxDepth = 4
 	}
